@@ -102,6 +102,10 @@ class Conv:
                          'gt': z3.fpGT, 'ge': z3.fpGEQ}[p](a, b)
                 else:
                     e = {'eq': a == b, 'ne': a != b, 'lt': a < b, 'le': a <= b, 'gt': a > b, 'ge': a >= b}[p]
+            elif op == 'biteq':
+                a = self.arg(n.args[0], 'R')
+                b = self.arg(n.args[1], 'R')
+                e = (a == b)            # structural equality: for Float64 terms this is bit identity (+0 != -0), for reals plain equality
             elif op == 'not':
                 e = z3.Not(self.arg(n.args[0], 'B'))
             elif op == 'and':
